@@ -8,7 +8,7 @@ Two halves per component (key list, replay history, association table, shared li
 import importlib
 import vlib
 
-PARTS = ["c19_replay", "c19_listeners", "c19_cipherlist", "c19_nat", "c19_metrics"]
+PARTS = ["c19_replay", "c19_listeners", "c19_cipherlist", "c19_nat", "c19_metrics", "c19_server"]
 
 
 def run(ctx):
